@@ -338,6 +338,11 @@ class Check:
         return out.strip()
 
     # ---------------------------------------------------------------- violations
+    def is_known(self, cls):
+        """True when cls is an OPEN entry of known_findings.json for this property."""
+        return any(k.get('property') == self.pid and k.get('status') == 'open' and k.get('class') == cls
+                   for k in known_findings())
+
     def violation(self, cls, what, found, replay):
         self.violations.append({'cls': cls, 'what': what, 'found': bool(found), 'replay': replay})
 
